@@ -29,6 +29,7 @@ class Sched:
         self.ran = []
         self.npoints = 0
         self.record = None        # optional list collecting (kind, name) of every yield point
+        self.dead = False
 
     def add(self, at, fn, tid=1, name=None):
         self.pending.append((at, tid, fn, name or getattr(fn, '__name__', 'op')))
@@ -53,9 +54,15 @@ class Sched:
             try:
                 fn()
                 self.ran.append(opname)
-            finally:
+            except BaseException:
+                # the schedule is being abandoned (or the code under test failed): while the exception
+                # unwinds through the primary's frames no further step may be injected
                 self.cur = prev
-                self.busy = False
+                self.busy = True
+                self.dead = True
+                raise
+            self.cur = prev
+            self.busy = False
 
     def start(self):
         self.busy = False
